@@ -335,17 +335,24 @@ func c08Resolved(in, r cty.Type) bool {
 		switch {
 		case in.IsCollectionType():
 			return c08Resolved(in.ElementType(), re)
-		case in.IsTupleType():
-			for _, it := range in.TupleElementTypes() {
-				if !c08Resolved(it, re) {
-					return false
+		case in.IsTupleType() || in.IsObjectType():
+			// many positions map to one: demanded only where they agree on one type
+			var its []cty.Type
+			if in.IsTupleType() {
+				its = in.TupleElementTypes()
+			} else {
+				atys := in.AttributeTypes()
+				for _, k := range sortedKeys(atys) {
+					its = append(its, atys[k])
 				}
 			}
-		case in.IsObjectType():
-			for _, it := range in.AttributeTypes() {
-				if !c08Resolved(it, re) {
-					return false
+			for _, it := range its {
+				if !it.Equals(its[0]) {
+					return true
 				}
+			}
+			if len(its) > 0 {
+				return c08Resolved(its[0], re)
 			}
 		}
 		return true
@@ -437,25 +444,26 @@ func c08Mismatch(want, got cty.Type, path string) string {
 	case want.IsObjectType() && got.IsObjectType():
 		wa, ga := want.AttributeTypes(), got.AttributeTypes()
 		if len(ga) == 0 && len(wa) > 0 {
-			return "object-became-empty@" + path
+			return "object-became-empty"
 		}
 		for _, k := range sortedKeys(wa) {
 			g, ok := ga[k]
 			if !ok {
-				return "object-attr-missing@" + path
+				return "object-attr-missing"
 			}
 			if m := c08Mismatch(wa[k], g, path+"object>"); m != "" {
 				return m
 			}
 		}
 		if len(ga) != len(wa) {
-			return "object-attr-extra@" + path
+			return "object-attr-extra"
 		}
 		return ""
 	case want.Equals(got):
 		return ""
 	}
-	return c08Kind(want) + "/" + c08Kind(got) + "@" + path
+	_ = path
+	return c08Kind(want) + "/" + c08Kind(got)
 }
 
 func c08HasUnknownLengthSet(v cty.Value) bool {
@@ -569,6 +577,25 @@ func c08MarkedNullCarries(v cty.Value, m interface{}) bool {
 
 func c08HasObject(t cty.Type) bool { return strings.Contains(encTy(t), "(O") }
 
+// c08NullMapToOptional: the shape behind the dynamicReplace findings — a null or
+// unknown value of map type somewhere in v, and an object type with an optional
+// attribute somewhere in t (for a null / unknown map the type of the result is
+// computed by dynamicReplace, which assumes that every optional attribute could
+// be converted from the map's element type).
+func c08NullMapToOptional(v cty.Value, t cty.Type) bool {
+	found := false
+	try(func() {
+		cty.Walk(v, func(_ cty.Path, x cty.Value) (bool, error) {
+			x, _ = x.Unmark()
+			if x.Type().IsMapType() && (!x.IsKnown() || x.IsNull()) {
+				found = true
+			}
+			return true, nil
+		})
+	})
+	return found && strings.Contains(encTy(t), " 1)")
+}
+
 // pair runs one (value, target) case: correspondence + predicates.
 func (c *c08Run) pair(v cty.Value, t cty.Type, deep bool) {
 	ctx := c.ctx
@@ -607,13 +634,24 @@ func (c *c08Run) pair(v cty.Value, t cty.Type, deep bool) {
 		} else {
 			uo := c08Call(func() (cty.Value, error) { return uns(v) })
 			same := so.kind == uo.kind && (so.kind != "ok" || c08RawEq(so.v, uo.v))
+			if t.HasDynamicTypes() && so.kind == "err" {
+				// with placeholders in the target the unsafe conversion may succeed (through
+				// late unsafe unification) where the safe one reports an error
+				same = true
+			}
 			if !same && so.kind != "panic" && uo.kind != "panic" {
 				c.fail("safe_sub_unsafe", "safe-unsafe-differ:"+so.kind+"/"+uo.kind, "the safe and the unsafe conversion of the same pair give different results", v, t, c08Outcome(so)+" vs "+c08Outcome(uo))
 			}
 		}
 		// safe_total: a safe conversion to a placeholder-free target never fails
 		if so.kind == "err" && !t.HasDynamicTypes() {
-			c.fail("safe_total", "safe-fails:"+c08Kind(v.Type())+">"+c08Kind(t), "a conversion offered as safe to a placeholder-free target fails", v, t, c08Outcome(so))
+			sig := "safe-fails:" + c08Kind(v.Type()) + ">" + c08Kind(t)
+			if c08HasUnknownLengthSet(v) {
+				// a set of unknown length was turned into an unknown list of the source element
+				// type (reported as result_conforms), which then does not fit its neighbours
+				sig = "set-unknown-length-to-list"
+			}
+			c.fail("safe_total", sig, "a conversion offered as safe to a placeholder-free target fails", v, t, c08Outcome(so))
 		}
 	}
 	if out.kind != "ok" {
@@ -633,7 +671,9 @@ func (c *c08Run) pair(v cty.Value, t cty.Type, deep bool) {
 		case "conforms":
 			sig := c08Mismatch(t, r.Type(), "")
 			if c08HasUnknownLengthSet(v) && !r.IsWhollyKnown() {
-				sig = "set-unknown-length-to-list:" + sig
+				sig = "set-unknown-length-to-list"
+			} else if c08NullMapToOptional(v, t) {
+				sig = "dynamicReplace-unconvertible-optional-attr"
 			}
 			c.fail("result_conforms", sig, "the result type does not conform to the requested type", v, t, c08Outcome(out))
 		case "no-optional":
@@ -678,12 +718,19 @@ func (c *c08Run) pair(v cty.Value, t cty.Type, deep bool) {
 	case again.kind == "panic":
 		c.fail("no_panic", c08PanicSig(again.why), "convert.Convert panics on its own result", r, t, c08Outcome(again))
 	case again.kind == "err":
-		c.fail("idempotent", "second-fails:"+c08Kind(r.Type())+">"+c08Kind(t), "converting the result again fails", v, t, c08Outcome(out)+" then "+c08Outcome(again))
+		sig := "second-fails:" + c08Kind(r.Type()) + ">" + c08Kind(t)
+		if len(r.Type().TestConformance(t)) > 0 {
+			sig = "first-result-nonconforming"
+		}
+		c.fail("idempotent", sig, "converting the result again fails", v, t, c08Outcome(out)+" then "+c08Outcome(again))
 	case !c08Same(again.v, r):
 		sig := "second-differs:" + c08Kind(r.Type()) + ">" + c08Kind(t)
-		if len(again.v.Type().TestConformance(t)) == 0 && len(r.Type().TestConformance(t)) > 0 {
-			// the first result did not conform (reported as result_conforms); the second does
+		if len(r.Type().TestConformance(t)) > 0 {
+			// the first result did not conform (reported as result_conforms)
 			sig = "first-result-nonconforming"
+		} else if c08HasOpt(r.Type()) {
+			// the first result carried optional annotations (reported as result_no_optional)
+			sig = "first-result-has-optional"
 		}
 		c.fail("idempotent", sig, "converting the result again changes it", v, t, c08Outcome(out)+" then "+c08Outcome(again))
 	}
@@ -729,27 +776,35 @@ func (c *c08Run) admits(u cty.Value, t cty.Type, r cty.Value) {
 		}
 		ctx.Tag("admits:checked")
 		ok := true
+		kv, _ := ko.v.UnmarkDeep()
 		if !ru.IsKnown() {
-			res := cty.True
-			if p, _ := try(func() { res = ru.Range().Includes(ko.v) }); !p && res.RawEquals(cty.False) {
+			// the refinement of the unknown result: nullness and length bounds (the type
+			// is the business of result_conforms)
+			rr := ru.Range()
+			switch {
+			case kv.IsNull():
+				ok = !rr.DefinitelyNotNull()
+			case rr.CouldBeNull() && ru.Range().TypeConstraint() == cty.DynamicPseudoType:
+			default:
+				try(func() {
+					if n := ru.Range(); kv.Type().IsCollectionType() && ru.Type().IsCollectionType() && kv.Length().IsKnown() {
+						l := kv.LengthInt()
+						ok = n.LengthLowerBound() <= l && l <= n.LengthUpperBound()
+					}
+				})
+			}
+			if p, _ := try(func() { _ = ru.Range().Includes(kv) }); p {
 				ok = false
 			}
 		} else if ru.IsNull() {
-			ok = ko.v.IsNull()
+			ok = kv.IsNull()
 		}
-		kv, _ := ko.v.UnmarkDeep()
 		if kv.IsWhollyKnown() {
 			ctx.Add("cv.admits", encBool(ok), encVal(ru), encVal(kv))
 		}
 		ctx.Eval("admits "+encVal(u)+" "+encTy(t)+" "+encVal(k), true)
 		if !ok {
 			sig := "refinement-excludes-result:" + c08Kind(u.Type()) + ">" + c08Kind(t)
-			if !ru.IsKnown() && !ko.v.IsNull() && len(ko.v.Type().TestConformance(ru.Type())) > 0 {
-				sig = "result-type-differs:" + c08Mismatch(ru.Type(), ko.v.Type(), "")
-				if c08EmptyCollWithDyn(ko.v) {
-					sig = "result-type-differs:empty-collection-keeps-nested-placeholder"
-				}
-			}
 			c.ctx.Fail(Failure{Site: "unknown_null_sound", Sig: sig,
 				What:    "the result for an unknown input carries a refinement that excludes the conversion of a value the input admits",
 				Input:   encVal(u) + " " + encTy(t) + " admitted: " + encVal(k),
@@ -894,7 +949,7 @@ func runC08(ctx *Ctx) {
 		for _, s := range c08NumStrings {
 			c08Parse(ctx, s)
 		}
-		for i := 0; i < ctx.N(300, 3000); i++ {
+		for i := 0; i < ctx.N(1500, 10000); i++ {
 			// random decimal strings
 			var sb strings.Builder
 			if r.Intn(3) == 0 {
@@ -914,11 +969,11 @@ func runC08(ctx *Ctx) {
 			}
 			c08Parse(ctx, sb.String())
 		}
-		for i := 0; i < ctx.N(600, 6000); i++ {
+		for i := 0; i < ctx.N(2500, 20000); i++ {
 			t := genTy(r, 2, TyOpts{})
 			c08Hash(ctx, c08Val(r, t, 2, c08VOpts{unknown: true, null: true}))
 		}
-		for i := 0; i < ctx.N(1500, 20000); i++ {
+		for i := 0; i < ctx.N(6000, 60000); i++ {
 			n := 1 + r.Intn(4)
 			tys := make([]cty.Type, n)
 			base := genTy(r, 2, TyOpts{Dyn: true})
@@ -964,7 +1019,7 @@ func runC08(ctx *Ctx) {
 
 	// (2) conversion existence over pairs of types of size <= 3
 	mid := c08SmallTypes(3)
-	nPairs := ctx.N(20000, len(mid)*len(mid))
+	nPairs := ctx.N(60000, len(mid)*len(mid))
 	if !sec("2") {
 		nPairs = 0
 	}
@@ -990,7 +1045,7 @@ func runC08(ctx *Ctx) {
 
 	// (3) random deeper pairs: derived and unrelated targets
 	depth := ctx.N(3, 4)
-	n3 := ctx.N(6000, 120000)
+	n3 := ctx.N(45000, 600000)
 	if !sec("3") {
 		n3 = 0
 	}
@@ -1020,7 +1075,7 @@ func runC08(ctx *Ctx) {
 				c.pair(cty.StringVal(s), t, false)
 			}
 		}
-		for i := 0; i < ctx.N(400, 4000); i++ {
+		for i := 0; i < ctx.N(1500, 15000); i++ {
 			n := genNumber(r, ValOpts{})
 			c.pair(n, cty.String, false)
 			c.pair(n, cty.Bool, false)
@@ -1034,7 +1089,7 @@ func runC08(ctx *Ctx) {
 	}
 
 	// (5) refined unknown collections (length bounds) through every collection pair
-	n5 := ctx.N(1500, 15000)
+	n5 := ctx.N(6000, 60000)
 	if !sec("5") {
 		n5 = 0
 	}
